@@ -256,3 +256,14 @@ theorem C10_cap (f : Flow) (hwf : f.WF) : f.closeReasons.length ≤ 5 := nodup_l
 
 example : CloseReason.http10 ∈ (Flow.new .get .h10 { scheme := "http", host := "a", port := none, path := "/", query := none } []).closeReasons :=
   (C10_initial _ _ _ _ _).mpr (Or.inl ⟨rfl, rfl⟩)
+
+/-- **C10 (the prepare state decides nothing).** Whatever the caller does while the flow is in the prepare
+    state — headers added (a second `Connection` field of any value among them), `send_body_despite_method`,
+    queries, advancing — the list of close reasons stays exactly what `Flow::new` derived from the request as
+    the caller made it (`C10_initial`). -/
+theorem C10_prepare (hack : Bool) (f : Flow) (op : Op) (hs : f.st = .prepare) :
+    (f.step hack op).1.closeReasons = f.closeReasons := by
+  unfold Flow.step
+  simp only [hs]
+  unfold stepPrepare
+  cases op <;> simp [notOffered] <;> (repeat' split) <;> simp_all
